@@ -23,12 +23,17 @@ HEADER = ("From Coq Require Import List String Arith.\nFrom SM Require Import Ex
 #              4 O1 (metered ramp added at N1 later), 5 D1 (plain destination replacing D0)
 NAMES = {0: "L0", 1: "L1", 2: "O0", 3: "D0", 4: "O1", 5: "D1"}
 PARS = dict(T=10 / 3600, tau=18 / 3600, eta=60.0, kappa=40.0, delta=0.0122)
+# steps may be taken with other model parameters: the compiled function must be the one of the LATEST step
+PARS_V = [PARS, dict(PARS, tau=30 / 3600, eta=35.0, kappa=25.0), dict(PARS, tau=12 / 3600, eta=80.0, delta=0.02)]
 
 
 class World:
-    def __init__(self, sym):
+    def __init__(self, sym, ramp="metered", forget=False):
+        """ramp: kind of the on-ramp element 4; forget: drop the next states of an element just before it is
+        stepped (the reference for 'reflects the most recent step': a step must overwrite them anyway)"""
         from sym_metanet import (CongestedDestination, Destination, Link, MainstreamOrigin, MeteredOnRamp,
-                                 Network, Node)
+                                 Network, Node, SimplifiedMeteredOnRamp)
+        self.forget = forget
         from sym_metanet.engines.casadi import Engine as Cs
         from sym_metanet.engines.numpy import Engine as Np
         self.cs = Cs(sym)
@@ -37,7 +42,9 @@ class World:
         self.el = {0: Link(2, 2, 1.0, 180.0, 33.0, 100.0, 1.8, name="L0"),
                    1: Link(1, 2, 1.0, 180.0, 33.0, 100.0, 1.8, name="L1"),
                    2: MainstreamOrigin(name="O0"), 3: CongestedDestination(name="D0"),
-                   4: MeteredOnRamp(2000.0, name="O1"), 5: Destination(name="D1")}
+                   4: (MeteredOnRamp(2000.0, name="O1") if ramp == "metered" else
+                       SimplifiedMeteredOnRamp(2000.0, name="O1")), 5: Destination(name="D1")}
+        self.ramp = ramp
         self.net = Network()
         self.net.add_path([self.N[0], self.el[0], self.N[1], self.el[1], self.N[2]], origin=self.el[2],
                           destination=self.el[3])
@@ -52,7 +59,8 @@ class World:
         if e == 2:
             return {"w": np.array([5.0]), "v_ctrl": np.array([90.0]), "d": np.array([1500.0])}
         if e == 4:
-            return {"w": np.array([3.0]), "r": np.array([0.7]), "d": np.array([400.0])}
+            return {"w": np.array([3.0]), ("r" if self.ramp == "metered" else "q"): np.array([0.7 if self.ramp == "metered" else 900.0]),
+                    "d": np.array([400.0])}
         if e == 3:
             return {"d": np.array([20.0])}
         return {}
@@ -68,16 +76,24 @@ class World:
                     el.init_vars(init_conditions=self.numbers(op[1]), engine=self.cs)
                 return "ok"
             if k == "stepall":
+                pars = PARS_V[op[2] if len(op) > 2 else 0]
+                if self.forget:
+                    for el in self.net.elements:
+                        if hasattr(el, "next_states"):
+                            el.next_states = None
                 if op[1] == "sym":
-                    self.net.step(engine=self.cs, **PARS)
+                    self.net.step(engine=self.cs, **pars)
                 else:
                     ic = {self.el[e]: self.numbers(e) for e in self.el}
                     with np.errstate(all="ignore"):
-                        self.net.step(engine=self.np, init_conditions=ic, **PARS)
+                        self.net.step(engine=self.np, init_conditions=ic, **pars)
                 return "ok"
             if k == "stepel":
+                pars = PARS_V[op[2] if len(op) > 2 else 0]
+                if self.forget:
+                    self.el[op[1]].next_states = None
                 with np.errstate(all="ignore"):
-                    self.el[op[1]].step(net=self.net, engine=self.cs, **PARS)
+                    self.el[op[1]].step(net=self.net, engine=self.cs, **pars)
                 return "ok"
             if k == "add":
                 if op[1] == 4:
@@ -137,12 +153,12 @@ def random_history(rng, maxlen=10):
             h.append(("init", e, "sym"))
         elif r < 0.45:
             k = rng.choice(["sym", "sym", "num"])
-            h.append(("stepall", k))
+            h.append(("stepall", k, rng.randrange(3)))
             numeric = (k == "num")
         elif r < 0.65:
             if numeric:
                 continue
-            h.append(("stepel", rng.choice(sorted(members & {0, 1, 2, 4}))))
+            h.append(("stepel", rng.choice(sorted(members & {0, 1, 2, 4})), rng.randrange(3)))
         elif r < 0.75:
             e = rng.choice([4, 5, 3])
             h.append(("add", e))
@@ -177,6 +193,17 @@ def directed_histories():
         [("stepall", "sym"), ("add", 5), T], [("stepall", "sym"), ("add", 5), ("add", 3), T],
         [("stepall", "sym"), ("add", 5), ("add", 3), ("init", 3, "sym"), T],
         [("stepall", "sym"), ("init", 3, "sym"), T],
+        # the latest step counts: the same element / the whole network stepped again with other parameters
+        [("stepall", "sym", 0), ("stepel", 0, 1), T], [("stepall", "sym", 0), ("stepel", 2, 2), ("stepel", 1, 1), T],
+        [("stepall", "sym", 1), ("stepall", "sym", 2), T],
+        [("stepall", "sym", 0), ("add", 4), ("stepall", "sym", 1), ("stepel", 4, 2), ("stepel", 0, 2), T],
+        # an element re-initialised after a numeric step (nothing symbolic of the old step is left to trip
+        # CasADi's own free-variable check): compiling must still refuse
+        [("add", 4), ("stepall", "num"), ("init", 4, "sym"), T],
+        [("stepall", "num"), ("add", 4), ("stepall", "num"), ("init", 4, "sym"), T],
+        [("stepall", "num"), ("init", 2, "sym"), T], [("stepall", "num"), ("init", 1, "sym"), T],
+        [("add", 4), ("stepall", "sym"), ("init", 4, "sym"), T],
+        [("add", 4), ("stepall", "sym"), ("init", 4, "sym"), ("stepel", 4, 1), T],
     ]
 
 
@@ -193,9 +220,11 @@ def run_C19(ctx):
         except Exception as ex:
             out["disagreements"].append({"what": "lifecycle model could not be evaluated", "error": str(ex)[-500:]})
     distinct = set()
+    ndir = len(directed_histories())
     for hi, h in enumerate(hs):
-        for sym in (("SX", "MX") if hi % 2 == 0 or not quick else ("SX",)):
-            W = World(sym)
+        for sym, ramp in ([(s_, r_) for s_ in ("SX", "MX") for r_ in ("metered", "simplified")] if hi < ndir or not quick
+                          else [(("SX", "MX")[hi % 2], ("metered", "simplified")[(hi // 2) % 2])]):
+            W = World(sym, ramp)
             obs = []
             shadow = Shadow()
             for oi, op in enumerate(h):
@@ -213,18 +242,18 @@ def run_C19(ctx):
                         F = W.last_F
                         if must_raise:
                             out["failures"].append({"key": "C19:returned:" + must_raise.split(":")[0], "history": h[:oi + 1], "sym": sym,
-                                                    "what": f"{sym}: to_function returned a function although {must_raise}; "
+                                                    "ramp": ramp, "what": f"{sym}, {ramp} ramp: to_function returned a function although {must_raise}; "
                                                             f"arguments {F.name_in()} results {F.name_out()}"})
                         if F.has_free():
                             out["failures"].append({"key": "C19:free", "history": h[:oi + 1], "sym": sym,
                                                     "what": f"{sym}: returned function has free symbols {F.get_free()}"})
-                        for msg in reflects_last_step(W, F):
+                        for msg in reflects_last_step(W, F) + content_is_latest(h[:oi + 1], sym, ramp, F):
                             out["failures"].append({"key": "C19:stale:" + msg.split(":")[0], "history": h[:oi + 1], "sym": sym,
-                                                    "what": f"{sym}: {msg}"})
+                                                    "ramp": ramp, "what": f"{sym}, {ramp} ramp: {msg}"})
                     elif r != "RuntimeError":
                         out["failures"].append({"key": "C19:error-class", "history": h[:oi + 1], "sym": sym,
                                                 "what": f"{sym}: to_function raised {r} instead of a runtime error"})
-            if models is not None and sym == "SX":
+            if models is not None:
                 m = models[hi]
                 if obs != m:
                     out["disagreements"].append({"what": f"history {h}: implementation {obs} model {m}", "history": h})
@@ -302,10 +331,41 @@ def reflects_last_step(W, F):
     return msgs
 
 
+def content_is_latest(h, sym, ramp, F):
+    """'reflects the most recent step', by value: the same history on new objects whose next states are dropped
+    just before every step (so nothing of an earlier step can survive) must compile to the same function"""
+    W2 = World(sym, ramp, forget=True)
+    r = None
+    for op in h:
+        r = W2.apply(op)
+    if not (isinstance(r, str) and r.startswith("function")):
+        return [f"content: the same history on objects that forget their next states before each step gives {r}"]
+    F2 = W2.last_F
+    sig = [(F.name_in(i), F.size1_in(i)) for i in range(F.n_in())]
+    sig2 = [(F2.name_in(i), F2.size1_in(i)) for i in range(F2.n_in())]
+    if sig != sig2 or F.name_out() != F2.name_out():
+        return [f"content: arguments/results {sig} {F.name_out()} differ from those of the forgetting reference {sig2} {F2.name_out()}"]
+    rng = random.Random(len(h) * 131 + 5)
+    args = [np.array([rng.uniform(5.0, 60.0) for _ in range(n)]) for _, n in sig]
+    a = F(*args)
+    b = F2(*args)
+    a = a if isinstance(a, (list, tuple)) else [a]
+    b = b if isinstance(b, (list, tuple)) else [b]
+    msgs = []
+    for nm, x, y in zip(F.name_out(), a, b):
+        x = np.array(x, dtype=float).reshape(-1)
+        y = np.array(y, dtype=float).reshape(-1)
+        if x.shape != y.shape or not np.allclose(x, y, rtol=1e-9, atol=1e-9, equal_nan=True):
+            msgs.append(f"content: result {nm} = {x.tolist()} is not that of the most recent step {y.tolist()} "
+                        f"(arguments {[v.tolist() for v in args]})")
+            break
+    return msgs
+
+
 def replay(failure):
     import json
     print(json.dumps(failure, indent=1, default=str)[:3000])
-    W = World(failure.get("sym", "SX"))
+    W = World(failure.get("sym", "SX"), failure.get("ramp", "metered"))
     for op in failure["history"]:
         print(op, "->", W.apply(tuple(op)))
     return 0
